@@ -502,6 +502,9 @@ class Engine(object):
         a = self.bind_args(ex, k, args, kwargs, path, e)
         c = CallCtx(k, a, path.heap)
         c.side = 'caller'
+        if k.assumed:
+            # reported in the evidence of every function that relies on it
+            ex.assumed_called[q] = (k.note or 'assumed contract')[:400]
         line = getattr(e, 'lineno', 0)
         # callee precondition
         for name, f in k.requires(c):
@@ -708,6 +711,18 @@ class Engine(object):
         info = {'function': q, 'file': 'pyModelChecking/' + relpath, 'sha256_16': self.src.sha(relpath, fnode),
                 'lines': [fnode.lineno, fnode.end_lineno], 'paths': len(final), 'returns': n_ret}
         info['probes'] = ex.probes
+        info['assumed_contracts_used'] = dict(ex.assumed_called)
+        # mechanical scan for assumptions: precondition clauses that exist only on the callee side are
+        # never checked at a call site - they are axioms / lemmas / class invariants this proof trusts
+        try:
+            c2 = CallCtx(k, args, h0)
+            c2.side = 'caller'
+            if k.skolems:
+                k.skolems(c2)
+            checked = set(n_ for n_, _ in k.requires(c2))
+            info['assumed_clauses'] = [n_ for n_, _ in k.requires(c) if n_ not in checked]
+        except Exception:
+            info['assumed_clauses'] = ['(scan failed)']
         return ex.obls, info, path
 
     def probe(self, assumptions, timeout_ms=3000):
